@@ -502,4 +502,7 @@ def run(run, model):
     run.try_rule(r10_5, model)
     run.try_rule(r10_15, model)
     run.try_rule(r10_16, model)
+    # the value of `a / b / c` and `a * b / c` depends on the associativity the parser gives * and / (shared with C11 R11.1)
+    from rules import c11 as _c11
+    run.try_rule(_c11.r11_1, model)
     run.assume("Go's sized integer/float types implement wrap-around, truncating division and IEEE rounding (outside the repository)")
